@@ -40,6 +40,17 @@ class Lower:
         self.lambda_caps = {}       # closure record id -> {captured decl id: (field name, by_reference)}
         self.used_cnames = {}
         self.stats = {'node_kinds': {}, 'functions': [], 'std_models': set(), 'externals': set()}
+        # a parameter of type std::unique_ptr<T> passed BY VALUE is one object, created by the caller and seen by the callee (Itanium ABI:
+        # the caller builds the temporary, passes its address and destroys it after the call).  C by-value passing would give the callee a
+        # second copy of the pointer, so a move out of the parameter would not be seen by the caller's temporary.  Such parameters are
+        # lowered as if declared `std::unique_ptr<T> &&` (address of the caller's temporary).
+        if not getattr(idx, '_vp_uptr_params_rewritten', False):
+            for n in idx.by_id.values():
+                if isinstance(n, dict) and n.get('kind') == 'ParmVarDecl' and isinstance(n.get('type'), dict):
+                    q = (n['type'].get('desugaredQualType') or n['type'].get('qualType') or '').strip()
+                    if re.match(r'^(const )?std::unique_ptr<.*>$', q):
+                        n['type'] = {'qualType': q + ' &&'}; n['_vp_byvalue_uptr'] = True
+            idx._vp_uptr_params_rewritten = True
 
     # ------------------------------------------------------------------ types
     def tparse(self, q):
@@ -113,6 +124,7 @@ class Lower:
         if m: return ('initlist', m.group(1))
         m = re.match(r'^(?:std::)?integral_constant<(.*)>$', n)
         if m or n in ('std::true_type', 'std::false_type', 'true_type', 'false_type'): return ('model', 'struct vp_empty')
+        if re.match(r'^std::is_array<.*>$', n): return ('model', 'struct vp_empty')   # empty tag classes
         m = re.match(r'^(?:std::|detail::)*(index_sequence|integer_sequence|make_index_sequence)<(.*)>$', n)
         if m: return ('model', 'struct vp_empty')
         if self.cfg.get('erase_functions'):
@@ -152,12 +164,14 @@ class Lower:
         if depth < 5 and '<' in n:
             # a specialisation spelled from inside a namespace (clang prints template arguments as written there): match on the
             # names with every namespace qualifier removed, unique match only
-            bare = re.sub(r'\b(?:\w+::)+', '', n)
+            # (driver types are indexed as vp_<name> with the namespace folded in; inside the driver's namespace clang spells <name>)
+            unq = lambda x: re.sub(r'\bvp_vp_', 'vp_', re.sub(r'\b(?:\w+::)+', '', x))
+            bare = unq(n)
             if not hasattr(self.idx, 'bare_names'):
                 bn = {}
                 for k, r in self.idx.rec_by_name.items():
                     if k.startswith('vp_') or k.startswith('anon_'): continue
-                    bn.setdefault(re.sub(r'\b(?:\w+::)+', '', k), {})[r['id']] = r
+                    bn.setdefault(unq(k), {})[r['id']] = r
                 self.idx.bare_names = bn
             cands = self.idx.bare_names.get(bare, {})
             if len(cands) == 1: return ('rec', list(cands.values())[0])
@@ -512,10 +526,16 @@ class Lower:
 
     def final_overrider(self, rec, method):
         """method of rec (or nearest base) overriding `method` (same name & params), with body"""
-        want = (method.get('name'), tuple(norm(p) for p in params_of(method['type']['qualType'])), 'const' in method['type']['qualType'].rsplit(')', 1)[-1])
+        def mparams(m):
+            # canonical parameter types: the mock function made by MAKE_MOCKn spells them param_list_t<Sig, I> (sugar), its interface spells the type
+            ps = [x for x in m.get('inner', []) if x.get('kind') == 'ParmVarDecl']
+            spelled = params_of(m['type']['qualType'])
+            if len(ps) != len(spelled): return tuple(norm(p) for p in spelled)
+            return tuple(norm(x['type'].get('desugaredQualType') or x['type']['qualType']) for x in ps)
+        want = (method.get('name'), mparams(method), 'const' in method['type']['qualType'].rsplit(')', 1)[-1])
         def search(r):
             for m in self.idx.methods(r):
-                if m.get('kind') == method.get('kind') and m.get('name') == want[0] and tuple(norm(p) for p in params_of(m['type']['qualType'])) == want[1] \
+                if m.get('kind') == method.get('kind') and m.get('name') == want[0] and mparams(m) == want[1] \
                    and ('const' in m['type']['qualType'].rsplit(')', 1)[-1]) == want[2]:
                     return m, r
             for b, br in self.idx.bases(r):
